@@ -1,4 +1,5 @@
 import Blue.Driver.Util
+import Blue.Driver.C13
 import Blue.Driver.C15
 import Blue.Driver.C05
 import Blue.Driver.C16
@@ -18,6 +19,7 @@ def dispatch (toks : List String) : String :=
   | "split" :: rest => Blue.Driver.C05.handleSplit rest
   | "wire" :: rest => Blue.Driver.C15.handleWire rest
   | "proto" :: rest => Blue.Driver.C15.handleProto rest
+  | "mani" :: rest => Blue.Driver.C13.handle rest
   | _ => "bad-op"
 
 partial def loop (h : IO.FS.Stream) (out : IO.FS.Stream) : IO Unit := do
